@@ -474,6 +474,72 @@ func C19(p *ir.Program, r *report.R) {
 		}
 	}
 
+	// ---- keys built from an object's own slice are built on a copy ----------------------------------
+	// append(obj.field, ...) returns a slice that shares obj.field's spare capacity: two keys built
+	// that way overwrite each other (every queued batch operation of a prefixed view ends up with the
+	// bytes of the last key). The first operand of append is fresh memory, or the result goes back
+	// into the same field.
+	{
+		eff := ir.DefaultEffects(p)
+		nApp := 0
+		var bad []string
+		for _, f := range p.Funcs {
+			if f.Pkg == nil || ir.RelPkg(f.Pkg.Pkg) != "libs/db" || f.Blocks == nil || strings.HasSuffix(p.Pos(f.Pos()), "_test.go") {
+				continue
+			}
+			ir.Instrs(f, func(in ssa.Instruction) {
+				call, ok := in.(*ssa.Call)
+				if !ok {
+					return
+				}
+				bi, ok := call.Call.Value.(*ssa.Builtin)
+				if !ok || bi.Name() != "append" {
+					return
+				}
+				nApp++
+				a0 := call.Call.Args[0]
+				root := a0
+				for k := 0; k < 8; k++ {
+					if sl, ok := root.(*ssa.Slice); ok {
+						root = sl.X
+						continue
+					}
+					break
+				}
+				var fieldAddr ssa.Value
+				switch x := root.(type) {
+				case *ssa.UnOp:
+					// the loaded slice itself must be fresh: a field of a by-value copy of the object
+					// (value receiver) still shares the object's backing array
+					if fa, ok := x.X.(*ssa.FieldAddr); ok && !eff.Fresh(x) {
+						fieldAddr = fa
+					}
+				case *ssa.Field:
+					if !eff.Fresh(x) {
+						fieldAddr = x
+					}
+				}
+				if fieldAddr == nil {
+					return
+				}
+				// result stored back into the same field?
+				back := false
+				if call.Referrers() != nil {
+					for _, ref := range *call.Referrers() {
+						if st, ok := ref.(*ssa.Store); ok && ir.Render(st.Addr) == ir.Render(fieldAddr) {
+							back = true
+						}
+					}
+				}
+				if !back {
+					bad = append(bad, ir.FuncName(f)+": append("+ir.Render(a0)+", ...) at "+p.InstrPos(in))
+				}
+			})
+		}
+		sort.Strings(bad)
+		r.Check("K4", "db/no-append-to-owned-slice", "-", len(bad) == 0 && nApp >= 10, fmt.Sprintf("%d append calls in libs/db inspected; appends that extend an object's own slice without writing the result back: %v", nApp, bad))
+	}
+
 	// ---- PrefixToEnd: the exclusive end of a prefix range ----------------------------------------
 	// The limit is the prefix truncated after the last byte below 0xff, with that byte incremented.
 	{
